@@ -287,3 +287,43 @@ def run_order(rec, S):
                 if not ok:
                     rec.finding(R, "F2.order/%s/%s/%s" % (name, v, d), "Resolver::%s %s `.%s` %s declaring `%s`, Compiler::%s does the opposite: a use of that name inside `.%s` is bound by the resolver to a variable that does not exist yet for the compiler (panic 'Symbol .. not found') or to a different variable than the one in scope" % (name, "resolves", v, "after" if a1 > b1 else "before", d, name, v), loc="%s:%d" % (RESOLVER, rf[name]["line"]), fn=name)
     rec.floor(R, "visit/declare pairs compared", n, 2)
+
+
+# ---------------------------------------------------------------------------
+# F2.once — a sub-expression is compiled (hence evaluated) once
+
+VISITORS = ("expr", "block", "atom", "apply_atom", "apply_trailers", "call", "index", "stmt", "decl")
+
+
+def run_once(rec, S):
+    R = rec.rule("F2.once", "within one control path of a Compiler method each child expression of the node being compiled is compiled once: compiling `index.index` twice makes `a[f()] += 1` call f twice")
+    cf = walker_fns(S, COMPILER, "Compiler")
+    n = 0
+    for name, f in sorted(cf.items()):
+        evs = [e for e in synq.events(f) if e.kind == "call" and e.name in VISITORS and synq.src(e.node.get("recv")) in ("self", "self_")]
+        seen = {}
+        for e in evs:
+            args = [synq.src(a) for a in (e.node.get("args") or [])]
+            if not args:
+                continue
+            a0 = re.sub(r"\s+", "", args[0])
+            if not re.search(r"\.", a0):
+                continue    # a local / loop variable, not a child of the node
+            if any(c[0] in ("for", "while", "loop") for c in e.ctx):
+                key_ctx = None
+            n += 1
+            k = (e.name, a0)
+            dup = None
+            for (octx, oline) in seen.get(k, []):
+                # same path if one context is a prefix of the other (different arms of a match / if are exclusive)
+                m = min(len(octx), len(e.ctx))
+                if [c[:4] for c in octx[:m]] == [c[:4] for c in e.ctx[:m]]:
+                    dup = oline
+            seen.setdefault(k, []).append((e.ctx, e.line))
+            ok = dup is None
+            if not ok:
+                rec.inst(R, "%s: %s(%s)" % (name, e.name, args[0][:40]), ok=False, loc="%s:%d" % (COMPILER, e.line))
+                rec.finding(R, "F2.once/%s/%s" % (name, a0[:60]), "Compiler::%s compiles `%s` twice on one path (lines %d and %d): its side effects happen twice each time the statement runs" % (name, args[0], dup, e.line), loc="%s:%d" % (COMPILER, e.line), fn=name)
+            else:
+                rec.inst(R, "%s: %s(%s)" % (name, e.name, args[0][:40]), ok=True, loc="%s:%d" % (COMPILER, e.line))
+    rec.floor(R, "child-expression compilations", n, 25)
